@@ -2469,6 +2469,14 @@ where
         }
     }
 
+    /// Verification hook (off in every normal build): a deserializer over any
+    /// event source (calls the private constructor)
+    #[cfg(any(kani, quick_xml_verif))]
+    #[doc(hidden)]
+    pub fn verif_new(reader: R, entity_resolver: E) -> Self {
+        Self::new(reader, entity_resolver)
+    }
+
     /// Returns `true` if all events was consumed.
     pub fn is_empty(&self) -> bool {
         #[cfg(feature = "overlapped-lists")]
@@ -3147,6 +3155,21 @@ impl StartTrimmer {
         };
         self.trim_start = trim_next_event;
         Some(event)
+    }
+}
+
+/// Verification hook (off in every normal build): the private filter that
+/// decides which reader events reach the deserializer
+#[cfg(any(kani, quick_xml_verif))]
+#[doc(hidden)]
+#[derive(Default)]
+pub struct VerifTrimmer(StartTrimmer);
+
+#[cfg(any(kani, quick_xml_verif))]
+#[doc(hidden)]
+impl VerifTrimmer {
+    pub fn trim<'a>(&mut self, event: Event<'a>) -> Option<PayloadEvent<'a>> {
+        self.0.trim(event)
     }
 }
 
